@@ -1762,6 +1762,27 @@ def rule_dfa_config(rep, crate):
             rep.viol(rid, 'dfa-config:pattern-order', 'the patterns handed to the NFA compiler are not the leaves\' patterns in leaf order (adapters %s, reads leaves: %s)' % (bad, uses_leaves), loc(fn, t['line']))
 
 
+def rule_dfa_heuristics(rep, crate):
+    """M-C01b: crate-wide who-may-call rule for the automaton options that trade exactness for coverage."""
+    rid = rep.rule('M-C01b', 'no heuristic automaton option: nowhere in logos-codegen is a DFA/NFA configured with unicode_word_boundary(true) or quit bytes (the DFA would treat Unicode \\b as ASCII \\b and give up / mis-match on non-ASCII input instead of the pattern being rejected), with reverse(true) or with a custom look_matcher (different line terminator): what regex-automata cannot build exactly must stay a build error that the derive reports', floor=1)
+    n = 0
+    for f in crate.fns.values():
+        for bi, t in f.calls():
+            nm = f.callee_name(t)
+            m = re.search(r'(dfa::dense::Config|hybrid::dfa::Config|thompson::Config|dfa::onepass::Config)::(unicode_word_boundary|quit|reverse|look_matcher)$', nm)
+            if not m:
+                continue
+            n += 1
+            what = m.group(2)
+            arg = desc(f, t['args'][-1]) if len(t['args']) > 1 else '?'
+            rep.inst(rid, '%s:%s' % (f.name, what), detail=arg)
+            if what == 'look_matcher' or not re.fullmatch(r'(const:)?false', arg):
+                rep.viol(rid, 'dfa-heuristic:%s' % what, '%s configures the automaton with %s(%s): patterns the exact construction rejects (or matches differently) are then accepted with approximate semantics' % (f.name, what, arg), loc(f, t['line']))
+    builders = [f for f in crate.fns.values() if find_calls(f, r'dfa::dense::Config::new$|thompson::Compiler::build_many_from_hir$')]
+    rep.inst(rid, 'automaton-builders', detail=[f.name for f in builders])
+    rep.anchor(rid, 'a function that configures the DFA (dense::Config::new / build_many_from_hir)', bool(builders))
+
+
 # --------------------------------------------------------------------------------------------
 # positive controls on fixtures/mir-cg (a frozen copy of logos-codegen/src with seeded defects)
 # --------------------------------------------------------------------------------------------
